@@ -146,7 +146,11 @@ DEF_FMT_SPEC(w, vf_u128)
 #define F_PREFIX 8u
 /* cls: 0 value, 1 no conversion (consumed == 0, value == 0), 2 out of range (value == the limit it was clamped to) */
 typedef struct { vf_i128 value; int consumed; int cls; _Bool minus, plus, prefix; int ws; } ref_t;
-#define DEF_PARSE_SPEC(sfx, ACC)                                                                                          \
+/* Accumulation is exact: every step is computed in the double-width type WS/WU (64 bit for W <= 32, 128 bit for W == 64) and
+ * compared with the limit BEFORE the running value is updated, so the running value cur always lies in [lo, 0] (signed targets:
+ * negative accumulation reaches numeric_limits::min()) or [0, hi] (unsigned targets) and fits the narrow type NS/NU without wrap.
+ * Keeping cur narrow matters for SAT only: a 128-bit chain against the library's 64-bit chain does not finish in 20 minutes. */
+#define DEF_PARSE_SPEC(sfx, NS, NU, WS, WU)                                                                               \
 static ref_t s_parse_##sfx(const char *s, int n, int base, unsigned fl, vf_i128 lo, vf_i128 hi, _Bool wrapneg, int W, int maxn) { \
   ref_t r; r.value = 0; r.consumed = 0; r.cls = 0; r.minus = 0; r.plus = 0; r.prefix = 0; int i = 0;                     \
   if (fl & F_WS) for (int k = 0; k < maxn; ++k) { if (i < n && s_space(s[i])) ++i; else break; }                        \
@@ -157,18 +161,22 @@ static ref_t s_parse_##sfx(const char *s, int n, int base, unsigned fl, vf_i128 
     if ((base == 16 || base == 0) && i + 2 < n && s[i] == '0' && (s[i + 1] == 'x' || s[i + 1] == 'X') && s_digit(s[i + 2]) < 16) { r.prefix = 1; i += 2; base = 16; } \
     else if (base == 0) base = (i < n && s[i] == '0') ? 8 : 10;                                                          \
   }                                                                                                                      \
-  const int start = i; ACC acc = 0; const ACC cap = (ACC)1 << (W + 1);   /* cap > |lo|, hi: saturation keeps "out of range" exact */ \
-  for (int k = 0; k < maxn; ++k) { if (i >= n) break; int d = s_digit(s[i]); if (d >= base) break; acc = acc * (ACC)base + (ACC)d; if (acc > cap) acc = cap; ++i; } \
+  const int start = i; _Bool ovf = 0; const _Bool sgn = lo < 0; NS ncur = 0; NU ucur = 0;                                \
+  for (int k = 0; k < maxn; ++k) { if (i >= n) break; const int d = s_digit(s[i]); if (d >= base) break; ++i;            \
+    if (ovf) continue;                                                                                                   \
+    if (sgn) { const WS wide = (WS)ncur * (WS)base - (WS)d; if (wide < (WS)lo) ovf = 1; else ncur = (NS)(ncur * (NS)base - (NS)d); } \
+    else { const WU wide = (WU)ucur * (WU)base + (WU)d; if (wide > (WU)hi) ovf = 1; else ucur = (NU)(ucur * (NU)base + (NU)d); } } \
   if (i == start) { r.cls = 1; r.minus = 0; r.plus = 0; r.prefix = 0; return r; }                                       \
   r.consumed = i;                                                                                                        \
-  if (wrapneg) {  /* strtoul: range test on the magnitude, then negation in the unsigned type */                         \
-    if ((vf_i128)acc > hi) { r.cls = 2; r.value = hi; } else r.value = (r.minus && acc != 0) ? ((((vf_i128)1) << W) - (vf_i128)acc) : (vf_i128)acc; \
-  } else { vf_i128 val = r.minus ? -(vf_i128)acc : (vf_i128)acc;                                                         \
-    if (val < lo) { r.cls = 2; r.value = lo; } else if (val > hi) { r.cls = 2; r.value = hi; } else r.value = val; }     \
+  if (sgn) { if (ovf) { r.cls = 2; r.value = r.minus ? lo : hi; }                                                        \
+    else if (r.minus) r.value = (vf_i128)ncur;                                                                           \
+    else if (-(vf_i128)ncur > hi) { r.cls = 2; r.value = hi; } else r.value = -(vf_i128)ncur; }                          \
+  else { if (ovf) { r.cls = 2; r.value = hi; }  /* strtoul: range test on the magnitude, then negation in the unsigned type */ \
+    else r.value = (wrapneg && r.minus && ucur != 0) ? ((((vf_i128)1) << W) - (vf_i128)ucur) : (vf_i128)ucur; }          \
   return r; }
-DEF_PARSE_SPEC(s, u32)
-DEF_PARSE_SPEC(n, u64)
-DEF_PARSE_SPEC(w, vf_u128)
+DEF_PARSE_SPEC(s, i32, u32, i64, u64)
+DEF_PARSE_SPEC(n, i32, u32, i64, u64)
+DEF_PARSE_SPEC(w, i64, u64, vf_i128, vf_u128)
 
 /* exact-size input range [s, s+n) over all byte values / exact-size terminated string of length <= n */
 #define RANGE_IN(MAXL) VF_INPUT(u8, n_in); VF_BUF(char, s, n_in, MAXL); const int n = n_in
@@ -203,26 +211,26 @@ DEF_PARSE_SPEC(w, vf_u128)
     if (r.cls == 0) { VF_ASSERT(got == (RT)r.value, #FN ": result == parsed value"); if (want_pos) VF_ASSERT(pos == (unsigned long)r.consumed, #FN ": *pos == number of characters processed"); } }
 
 /* =========================================== formatting, 8 bit (quick) ================================================== */
-/*@GROUP name=to_chars_i8 props=C10,C02 kind=K unwind=12@*/
+/*@GROUP name=to_chars_i8 props=C10,C02 kind=K unwind=12 solver=kissat@*/
 void h_to_chars_i8(void) { SYM_BASE(); FMT_PRE(i8, 8, 8, 10);
   VF_KNOWN(C10_format_store_before_length_check, v != 0 && (L == 0 || (L == 1 && v < 0 && base == 10)));
   VF_KNOWN(C10_to_chars_exact_fit_rejected, v != 0 && L == n);
   VF_KNOWN(C10_format_sign_only_base10, v < 0 && base != 10);
   TO_CHARS_POST(i8, 8, 8); }
 
-/*@GROUP name=to_chars_u8 props=C10,C02 kind=K unwind=12@*/
+/*@GROUP name=to_chars_u8 props=C10,C02 kind=K unwind=12 solver=kissat@*/
 void h_to_chars_u8(void) { SYM_BASE(); FMT_PRE(u8, 8, 8, 10);
   VF_KNOWN(C10_format_store_before_length_check, v != 0 && L == 0);
   VF_KNOWN(C10_to_chars_exact_fit_rejected, v != 0 && L == n);
   TO_CHARS_POST(u8, 8, 8); }
 
-/*@GROUP name=from_integer_i8 props=C10,C02 kind=K unwind=12@*/
+/*@GROUP name=from_integer_i8 props=C10,C02 kind=K unwind=12 solver=kissat@*/
 void h_from_integer_i8(void) { SYM_BASE(); FMT_PRE(i8, 8, 8, 10);
   VF_KNOWN(C10_format_store_before_length_check, v != 0 && (L == 0 || (L == 1 && v < 0 && base == 10)));
   VF_KNOWN(C10_format_sign_only_base10, v < 0 && base != 10);
   FROM_INTEGER_POST(i8, 8, 8); }
 
-/*@GROUP name=from_integer_u8 props=C10,C02 kind=K unwind=12@*/
+/*@GROUP name=from_integer_u8 props=C10,C02 kind=K unwind=12 solver=kissat@*/
 void h_from_integer_u8(void) { SYM_BASE(); FMT_PRE(u8, 8, 8, 10);
   VF_KNOWN(C10_format_store_before_length_check, v != 0 && L == 0);
   FROM_INTEGER_POST(u8, 8, 8); }
@@ -272,12 +280,12 @@ void h_roundtrip_i8(void) { SYM_BASE(); ROUNDTRIP_PRE(i8, 8);
 void h_roundtrip_u8(void) { SYM_BASE(); ROUNDTRIP_PRE(u8, 8); ROUNDTRIP_POST(u8, 8); }
 
 /* =========================================== to_string (base 10) ======================================================== */
-/*@GROUP name=to_string_4 props=C10,C02,C05 kind=K unwind=13@*/
+/*@GROUP name=to_string_4 props=C10,C02,C05 kind=K unwind=13 solver=kissat@*/
 void h_to_string_4(void) { const int base = 10; VF_INPUT_BOOL(uns);
   if (uns) { FMT_VAL(u32, 32, 10); __CPROVER_assume(n + 1 <= 4); TO_STRING_POST(to_string_4_uint, u32, 32, 10, 4); }
   else { FMT_VAL(i32, 32, 10); __CPROVER_assume(n + 1 <= 4); TO_STRING_POST(to_string_4_int, i32, 32, 10, 4); } }
 
-/*@GROUP name=viol_to_string props=C05,C02 kind=K unwind=13@*/
+/*@GROUP name=viol_to_string props=C05,C02 kind=K unwind=13 solver=kissat@*/
 void h_viol_to_string(void) { const int base = 10; VF_INPUT_BOOL(uns); unsigned long size = 99; CC_OUT(out, 4, 4); EXPECT_VIOLATION();
   if (uns) { FMT_VAL(u32, 32, 10); __CPROVER_assume(n + 1 > 4); to_string_4_uint(v, &size, out); }
   else { FMT_VAL(i32, 32, 10); __CPROVER_assume(n + 1 > 4); to_string_4_int(v, &size, out); }
@@ -286,147 +294,147 @@ void h_viol_to_string(void) { const int base = 10; VF_INPUT_BOOL(uns); unsigned 
 /* =========================================== 16 bit (thorough) ======================================================== */
 /* one cell per base 2..36 (split=CC_B:2:36): with a symbolic base the 16-bit division/multiplication relations need > 20 min per group,
  * with a constant base seconds per cell; the 35 cells together are the complete (type, every base) proof. */
-/*@GROUP name=to_chars_i16 props=C10,C02 kind=K unwind=20 tier=thorough timeout=600 cost=3 split=CC_B:2:36@*/
+/*@GROUP name=to_chars_i16 props=C10,C02 kind=K unwind=20 tier=thorough timeout=600 cost=3 split=CC_B:2:36 solver=kissat@*/
 void h_to_chars_i16(void) { const int base = CC_B; FMT_PRE(i16, 16, CC_D16, CC_D16 + 2);
   VF_KNOWN(C10_format_store_before_length_check, v != 0 && (L == 0 || (L == 1 && v < 0 && base == 10)));
   VF_KNOWN(C10_to_chars_exact_fit_rejected, v != 0 && L == n);
   VF_KNOWN(C10_format_sign_only_base10, v < 0 && base != 10);
   TO_CHARS_POST(i16, 16, CC_D16); }
 
-/*@GROUP name=to_chars_u16 props=C10,C02 kind=K unwind=20 tier=thorough timeout=600 cost=3 split=CC_B:2:36@*/
+/*@GROUP name=to_chars_u16 props=C10,C02 kind=K unwind=20 tier=thorough timeout=600 cost=3 split=CC_B:2:36 solver=kissat@*/
 void h_to_chars_u16(void) { const int base = CC_B; FMT_PRE(u16, 16, CC_D16, CC_D16 + 2);
   VF_KNOWN(C10_format_store_before_length_check, v != 0 && L == 0);
   VF_KNOWN(C10_to_chars_exact_fit_rejected, v != 0 && L == n);
   TO_CHARS_POST(u16, 16, CC_D16); }
 
-/*@GROUP name=from_integer_i16 props=C10,C02 kind=K unwind=20 tier=thorough timeout=600 cost=3 split=CC_B:2:36@*/
+/*@GROUP name=from_integer_i16 props=C10,C02 kind=K unwind=20 tier=thorough timeout=600 cost=3 split=CC_B:2:36 solver=kissat@*/
 void h_from_integer_i16(void) { const int base = CC_B; FMT_PRE(i16, 16, CC_D16, CC_D16 + 2);
   VF_KNOWN(C10_format_store_before_length_check, v != 0 && (L == 0 || (L == 1 && v < 0 && base == 10)));
   VF_KNOWN(C10_format_sign_only_base10, v < 0 && base != 10);
   FROM_INTEGER_POST(i16, 16, CC_D16); }
 
-/*@GROUP name=from_integer_u16 props=C10,C02 kind=K unwind=20 tier=thorough timeout=600 cost=3 split=CC_B:2:36@*/
+/*@GROUP name=from_integer_u16 props=C10,C02 kind=K unwind=20 tier=thorough timeout=600 cost=3 split=CC_B:2:36 solver=kissat@*/
 void h_from_integer_u16(void) { const int base = CC_B; FMT_PRE(u16, 16, CC_D16, CC_D16 + 2);
   VF_KNOWN(C10_format_store_before_length_check, v != 0 && L == 0);
   FROM_INTEGER_POST(u16, 16, CC_D16); }
 
-/*@GROUP name=from_chars_i16 props=C10,C02 kind=K unwind=22 tier=thorough timeout=600 cost=3 split=CC_B:2:36@*/
+/*@GROUP name=from_chars_i16 props=C10,C02 kind=K unwind=22 tier=thorough timeout=600 cost=3 split=CC_B:2:36 solver=kissat@*/
 void h_from_chars_i16(void) { const int base = CC_B; RANGE_IN(CC_D16 + 3); FROM_CHARS_PRE(i16, 16, CC_D16 + 3);
   VF_KNOWN(C10_from_chars_out_of_range_ptr, r.cls == 2);
   FROM_CHARS_POST(i16); }
 
-/*@GROUP name=from_chars_u16 props=C10,C02 kind=K unwind=22 tier=thorough timeout=600 cost=3 split=CC_B:2:36@*/
+/*@GROUP name=from_chars_u16 props=C10,C02 kind=K unwind=22 tier=thorough timeout=600 cost=3 split=CC_B:2:36 solver=kissat@*/
 void h_from_chars_u16(void) { const int base = CC_B; RANGE_IN(CC_D16 + 3); FROM_CHARS_PRE(u16, 16, CC_D16 + 3);
   VF_KNOWN(C10_from_chars_out_of_range_ptr, r.cls == 2);
   FROM_CHARS_POST(u16); }
 
-/*@GROUP name=to_integer_i16 props=C10,C02 kind=K unwind=22 tier=thorough timeout=600 cost=3 split=CC_B:2:36@*/
+/*@GROUP name=to_integer_i16 props=C10,C02 kind=K unwind=22 tier=thorough timeout=600 cost=3 split=CC_B:2:36 solver=kissat@*/
 void h_to_integer_i16(void) { const int base = CC_B; RANGE_IN(CC_D16 + 3); TO_INTEGER_PRE(i16, 16, CC_D16 + 3); TO_INTEGER_POST(i16); }
 
-/*@GROUP name=to_integer_u16 props=C10,C02 kind=K unwind=22 tier=thorough timeout=600 cost=3 split=CC_B:2:36@*/
+/*@GROUP name=to_integer_u16 props=C10,C02 kind=K unwind=22 tier=thorough timeout=600 cost=3 split=CC_B:2:36 solver=kissat@*/
 void h_to_integer_u16(void) { const int base = CC_B; RANGE_IN(CC_D16 + 3); TO_INTEGER_PRE(u16, 16, CC_D16 + 3); TO_INTEGER_POST(u16); }
 
-/*@GROUP name=roundtrip_i16 props=C10,C02 kind=K unwind=21 tier=thorough timeout=600 cost=3 split=CC_B:2:36@*/
+/*@GROUP name=roundtrip_i16 props=C10,C02 kind=K unwind=21 tier=thorough timeout=600 cost=3 split=CC_B:2:36 solver=kissat@*/
 void h_roundtrip_i16(void) { const int base = CC_B; ROUNDTRIP_PRE(i16, 16);
   VF_KNOWN(C10_format_sign_only_base10, v < 0 && base != 10);
   ROUNDTRIP_POST(i16, 16); }
 
-/*@GROUP name=roundtrip_u16 props=C10,C02 kind=K unwind=21 tier=thorough timeout=600 cost=3 split=CC_B:2:36@*/
+/*@GROUP name=roundtrip_u16 props=C10,C02 kind=K unwind=21 tier=thorough timeout=600 cost=3 split=CC_B:2:36 solver=kissat@*/
 void h_roundtrip_u16(void) { const int base = CC_B; ROUNDTRIP_PRE(u16, 16); ROUNDTRIP_POST(u16, 16); }
 
 /* =========================================== 32 / 64 bit, base fixed per cell (thorough) ================================== */
 /* split=CC_BI:0:3 -> base 8, 10, 16, 36 (one K proof per (type, base) cell); base 2 in *_b2 groups (longest unwinding).
  * Symbolic-base division/multiplication relations at 32/64 bit are SAT-hard, a constant base is not. */
-/*@GROUP name=to_chars_i32 props=C10,C02 kind=K unwind=17 tier=thorough timeout=1200 split=CC_BI:0:3 qsplit=1 cost=6@*/
+/*@GROUP name=to_chars_i32 props=C10,C02 kind=K unwind=17 tier=thorough timeout=1200 split=CC_BI:0:3 qsplit=1 cost=6 solver=kissat@*/
 void h_to_chars_i32(void) { const int base = CC_BASE; FMT_PRE(i32, 32, CC_D32, CC_D32 + 3);
   VF_KNOWN(C10_format_store_before_length_check, v != 0 && (L == 0 || (L == 1 && v < 0 && base == 10)));
   VF_KNOWN(C10_to_chars_exact_fit_rejected, v != 0 && L == n);
   VF_KNOWN(C10_format_sign_only_base10, v < 0 && base != 10);
   TO_CHARS_POST(i32, 32, CC_D32); }
 
-/*@GROUP name=to_chars_u32 props=C10,C02 kind=K unwind=17 tier=thorough timeout=1200 split=CC_BI:0:3 cost=6@*/
+/*@GROUP name=to_chars_u32 props=C10,C02 kind=K unwind=17 tier=thorough timeout=1200 split=CC_BI:0:3 cost=6 solver=kissat@*/
 void h_to_chars_u32(void) { const int base = CC_BASE; FMT_PRE(u32, 32, CC_D32, CC_D32 + 3);
   VF_KNOWN(C10_format_store_before_length_check, v != 0 && L == 0);
   VF_KNOWN(C10_to_chars_exact_fit_rejected, v != 0 && L == n);
   TO_CHARS_POST(u32, 32, CC_D32); }
 
-/*@GROUP name=to_chars_i32_b2 props=C10,C02 kind=K unwind=38 tier=thorough timeout=1200 cost=6@*/
+/*@GROUP name=to_chars_i32_b2 props=C10,C02 kind=K unwind=38 tier=thorough timeout=1200 cost=6 solver=kissat@*/
 void h_to_chars_i32_b2(void) { const int base = 2; FMT_PRE(i32, 32, 32, 35);
   VF_KNOWN(C10_format_store_before_length_check, v != 0 && L == 0);
   VF_KNOWN(C10_to_chars_exact_fit_rejected, v != 0 && L == n);
   VF_KNOWN(C10_format_sign_only_base10, v < 0);
   TO_CHARS_POST(i32, 32, 32); }
 
-/*@GROUP name=to_chars_i64 props=C10,C02 kind=K unwind=28 tier=thorough timeout=1200 split=CC_BI:0:3 cost=9@*/
+/*@GROUP name=to_chars_i64 props=C10,C02 kind=K unwind=28 tier=thorough timeout=1200 split=CC_BI:0:3 cost=9 solver=kissat@*/
 void h_to_chars_i64(void) { const int base = CC_BASE; FMT_PRE(i64, 64, CC_D64, CC_D64 + 3);
   VF_KNOWN(C10_format_store_before_length_check, v != 0 && (L == 0 || (L == 1 && v < 0 && base == 10)));
   VF_KNOWN(C10_to_chars_exact_fit_rejected, v != 0 && L == n);
   VF_KNOWN(C10_format_sign_only_base10, v < 0 && base != 10);
   TO_CHARS_POST(i64, 64, CC_D64); }
 
-/*@GROUP name=to_chars_u64 props=C10,C02 kind=K unwind=28 tier=thorough timeout=1200 split=CC_BI:0:3 cost=9@*/
+/*@GROUP name=to_chars_u64 props=C10,C02 kind=K unwind=28 tier=thorough timeout=1200 split=CC_BI:0:3 cost=9 solver=kissat@*/
 void h_to_chars_u64(void) { const int base = CC_BASE; FMT_PRE(u64, 64, CC_D64, CC_D64 + 3);
   VF_KNOWN(C10_format_store_before_length_check, v != 0 && L == 0);
   VF_KNOWN(C10_to_chars_exact_fit_rejected, v != 0 && L == n);
   TO_CHARS_POST(u64, 64, CC_D64); }
 
-/*@GROUP name=to_chars_u64_b2 props=C10,C02 kind=K unwind=70 tier=thorough timeout=1200 cost=9@*/
+/*@GROUP name=to_chars_u64_b2 props=C10,C02 kind=K unwind=70 tier=thorough timeout=1200 cost=9 solver=kissat@*/
 void h_to_chars_u64_b2(void) { const int base = 2; FMT_PRE(u64, 64, 64, 67);
   VF_KNOWN(C10_format_store_before_length_check, v != 0 && L == 0);
   VF_KNOWN(C10_to_chars_exact_fit_rejected, v != 0 && L == n);
   TO_CHARS_POST(u64, 64, 64); }
 
-/*@GROUP name=to_string_int props=C10,C02,C05 kind=K unwind=14 tier=thorough timeout=1200 cost=6@*/
+/*@GROUP name=to_string_int props=C10,C02,C05 kind=K unwind=14 tier=thorough timeout=1200 cost=6 solver=kissat@*/
 void h_to_string_int(void) { const int base = 10; VF_INPUT_BOOL(uns);
   if (uns) { FMT_VAL(u32, 32, 10); TO_STRING_POST(to_string_12_uint, u32, 32, 10, 12); }
   else { FMT_VAL(i32, 32, 10); TO_STRING_POST(to_string_12_int, i32, 32, 10, 12); } }
 
-/*@GROUP name=to_string_ll props=C10,C02,C05 kind=K unwind=24 tier=thorough timeout=1200 cost=9@*/
+/*@GROUP name=to_string_ll props=C10,C02,C05 kind=K unwind=24 tier=thorough timeout=1200 cost=9 solver=kissat@*/
 void h_to_string_ll(void) { const int base = 10; VF_INPUT(u8, which);
   if (which == 0) { FMT_VAL(u64, 64, 20); TO_STRING_POST(to_string_21_ull, u64, 64, 20, 21); }
   else if (which == 1) { FMT_VAL(i64, 64, 20); TO_STRING_POST(to_string_21_ll, i64, 64, 20, 21); }
   else if (which == 2) { FMT_VAL(u64, 64, 20); TO_STRING_POST(to_string_21_ulong, u64, 64, 20, 21); }
   else { FMT_VAL(i64, 64, 20); TO_STRING_POST(to_string_21_long, i64, 64, 20, 21); } }
 
-/*@GROUP name=from_chars_i32 props=C10,C02 kind=K unwind=17 tier=thorough timeout=1200 split=CC_BI:0:3 cost=6@*/
+/*@GROUP name=from_chars_i32 props=C10,C02 kind=K unwind=17 tier=thorough timeout=1200 split=CC_BI:0:3 cost=6 solver=kissat@*/
 void h_from_chars_i32(void) { const int base = CC_BASE; RANGE_IN(CC_D32 + 3); FROM_CHARS_PRE(i32, 32, CC_D32 + 3);
   VF_KNOWN(C10_from_chars_out_of_range_ptr, r.cls == 2);
   FROM_CHARS_POST(i32); }
 
-/*@GROUP name=from_chars_u32 props=C10,C02 kind=K unwind=17 tier=thorough timeout=1200 split=CC_BI:0:3 cost=6@*/
+/*@GROUP name=from_chars_u32 props=C10,C02 kind=K unwind=17 tier=thorough timeout=1200 split=CC_BI:0:3 cost=6 solver=kissat@*/
 void h_from_chars_u32(void) { const int base = CC_BASE; RANGE_IN(CC_D32 + 3); FROM_CHARS_PRE(u32, 32, CC_D32 + 3);
   VF_KNOWN(C10_from_chars_out_of_range_ptr, r.cls == 2);
   FROM_CHARS_POST(u32); }
 
-/*@GROUP name=from_chars_i32_b2 props=C10,C02 kind=K unwind=38 tier=thorough timeout=1200 cost=6@*/
+/*@GROUP name=from_chars_i32_b2 props=C10,C02 kind=K unwind=38 tier=thorough timeout=1200 cost=6 solver=kissat@*/
 void h_from_chars_i32_b2(void) { const int base = 2; RANGE_IN(35); FROM_CHARS_PRE(i32, 32, 35);
   VF_KNOWN(C10_from_chars_out_of_range_ptr, r.cls == 2);
   FROM_CHARS_POST(i32); }
 
-/*@GROUP name=from_chars_i64 props=C10,C02 kind=K unwind=28 tier=thorough timeout=1200 split=CC_BI:0:3 cost=9@*/
+/*@GROUP name=from_chars_i64 props=C10,C02 kind=K unwind=28 tier=thorough timeout=1200 split=CC_BI:0:3 cost=9 solver=kissat@*/
 void h_from_chars_i64(void) { const int base = CC_BASE; RANGE_IN(CC_D64 + 3); FROM_CHARS_PRE(i64, 64, CC_D64 + 3);
   VF_KNOWN(C10_from_chars_out_of_range_ptr, r.cls == 2);
   FROM_CHARS_POST(i64); }
 
-/*@GROUP name=from_chars_u64 props=C10,C02 kind=K unwind=28 tier=thorough timeout=1200 split=CC_BI:0:3 cost=9@*/
+/*@GROUP name=from_chars_u64 props=C10,C02 kind=K unwind=28 tier=thorough timeout=1200 split=CC_BI:0:3 cost=9 solver=kissat@*/
 void h_from_chars_u64(void) { const int base = CC_BASE; RANGE_IN(CC_D64 + 3); FROM_CHARS_PRE(u64, 64, CC_D64 + 3);
   VF_KNOWN(C10_from_chars_out_of_range_ptr, r.cls == 2);
   FROM_CHARS_POST(u64); }
 
-/*@GROUP name=from_chars_u64_b2 props=C10,C02 kind=K unwind=70 tier=thorough timeout=1200 cost=9@*/
+/*@GROUP name=from_chars_u64_b2 props=C10,C02 kind=K unwind=70 tier=thorough timeout=1200 cost=9 solver=kissat@*/
 void h_from_chars_u64_b2(void) { const int base = 2; RANGE_IN(67); FROM_CHARS_PRE(u64, 64, 67);
   VF_KNOWN(C10_from_chars_out_of_range_ptr, r.cls == 2);
   FROM_CHARS_POST(u64); }
 
-/*@GROUP name=to_integer_i32 props=C10,C02 kind=K unwind=17 tier=thorough timeout=1200 split=CC_BI:0:3 cost=6@*/
+/*@GROUP name=to_integer_i32 props=C10,C02 kind=K unwind=17 tier=thorough timeout=1200 split=CC_BI:0:3 cost=6 solver=kissat@*/
 void h_to_integer_i32(void) { const int base = CC_BASE; RANGE_IN(CC_D32 + 3); TO_INTEGER_PRE(i32, 32, CC_D32 + 3); TO_INTEGER_POST(i32); }
 
-/*@GROUP name=to_integer_u64 props=C10,C02 kind=K unwind=28 tier=thorough timeout=1200 split=CC_BI:0:3 cost=9@*/
+/*@GROUP name=to_integer_u64 props=C10,C02 kind=K unwind=28 tier=thorough timeout=1200 split=CC_BI:0:3 cost=9 solver=kissat@*/
 void h_to_integer_u64(void) { const int base = CC_BASE; RANGE_IN(CC_D64 + 3); TO_INTEGER_PRE(u64, 64, CC_D64 + 3); TO_INTEGER_POST(u64); }
 
 /* =========================================== C library and <string> families =========================================== */
 /* long == long long == 64 bit here.  Terminated exact-size strings; reference = C strtol grammar. */
-/*@GROUP name=strtol props=C10,C02 kind=K unwind=29 tier=thorough timeout=1200 split=CC_BI:0:3 qsplit=1 cost=9@*/
+/*@GROUP name=strtol props=C10,C02 kind=K unwind=29 tier=thorough timeout=1200 split=CC_BI:0:3 qsplit=1 cost=9 solver=kissat@*/
 void h_strtol(void) { const int base = CC_BASE; VF_INPUT_BOOL(ll); CSTR_IN(CC_D64 + 3); STRTO_PRE(i64, CC_D64 + 3, 0);
   VF_KNOWN(C10_parse_plus_sign_rejected, r.plus);
   VF_KNOWN(C10_parse_hex_prefix_ignored, r.prefix);
@@ -434,7 +442,7 @@ void h_strtol(void) { const int base = CC_BASE; VF_INPUT_BOOL(ll); CSTR_IN(CC_D6
   if (ll) { STRTO_POST(c_strtoll, long long); } else { STRTO_POST(c_strtol, long); }
   VF_REACH(); }
 
-/*@GROUP name=strtoul props=C10,C02 kind=K unwind=29 tier=thorough timeout=1200 split=CC_BI:0:3 cost=9@*/
+/*@GROUP name=strtoul props=C10,C02 kind=K unwind=29 tier=thorough timeout=1200 split=CC_BI:0:3 cost=9 solver=kissat@*/
 void h_strtoul(void) { const int base = CC_BASE; VF_INPUT_BOOL(ll); CSTR_IN(CC_D64 + 3); STRTO_PRE(u64, CC_D64 + 3, 1);
   VF_KNOWN(C10_parse_plus_sign_rejected, r.plus);
   VF_KNOWN(C10_parse_hex_prefix_ignored, r.prefix);
@@ -444,7 +452,7 @@ void h_strtoul(void) { const int base = CC_BASE; VF_INPUT_BOOL(ll); CSTR_IN(CC_D
   VF_REACH(); }
 
 /* base 0 (auto-detection: 0x -> 16, 0 -> 8, else 10) next to base 10 on short strings */
-/*@GROUP name=strto_base0 props=C10,C02 kind=B bound=strlen<=4,base_in_{0,10} unwind=8@*/
+/*@GROUP name=strto_base0 props=C10,C02 kind=B bound=strlen<=4,base_in_{0,10} unwind=8 solver=kissat@*/
 void h_strto_base0(void) { VF_INPUT_BOOL(auto_base); const int base = auto_base ? 0 : 10; VF_INPUT(u8, fn); CSTR_IN(4); const _Bool uns = fn >= 2;
   VF_INPUT_BOOL(want_end);
   const ref_t r = uns ? s_parse_w(s, n, base, F_WS | F_MINUS | F_PLUS | F_PREFIX, LO_u64, HI_u64, 1, 64, 4) : s_parse_w(s, n, base, F_WS | F_MINUS | F_PLUS | F_PREFIX, LO_i64, HI_i64, 0, 64, 4);
@@ -455,31 +463,31 @@ void h_strto_base0(void) { VF_INPUT_BOOL(auto_base); const int base = auto_base 
   else if (fn == 2) { STRTO_POST(c_strtoul, unsigned long); } else { STRTO_POST(c_strtoull, unsigned long long); }
   VF_REACH(); }
 
-/*@GROUP name=atoi props=C10,C02 kind=K unwind=17 cost=4@*/
+/*@GROUP name=atoi props=C10,C02 kind=K unwind=17 cost=4 solver=kissat@*/
 void h_atoi(void) { CSTR_IN(13); ATO_PRE(i32, 32, 13);
   VF_KNOWN(C10_parse_plus_sign_rejected, r.plus);
   ATO_POST(c_atoi, int); VF_REACH(); }
 
-/*@GROUP name=atol props=C10,C02 kind=K unwind=27 tier=thorough timeout=1200 cost=6@*/
+/*@GROUP name=atol props=C10,C02 kind=K unwind=27 tier=thorough timeout=1200 cost=6 solver=kissat@*/
 void h_atol(void) { VF_INPUT_BOOL(ll); CSTR_IN(23); ATO_PRE(i64, 64, 23);
   VF_KNOWN(C10_parse_plus_sign_rejected, r.plus);
   if (ll) ATO_POST(c_atoll, long long) else ATO_POST(c_atol, long)
   VF_REACH(); }
 
-/*@GROUP name=stoi props=C10,C02 kind=K unwind=17 tier=thorough timeout=1200 split=CC_BI:0:3 qsplit=1 cost=6@*/
+/*@GROUP name=stoi props=C10,C02 kind=K unwind=17 tier=thorough timeout=1200 split=CC_BI:0:3 qsplit=1 cost=6 solver=kissat@*/
 void h_stoi(void) { const int base = CC_BASE; RANGE_IN(CC_D32 + 3); STO_PRE(i32, 32, CC_D32 + 3, 0);
   VF_KNOWN(C10_parse_plus_sign_rejected, r.plus);
   VF_KNOWN(C10_parse_hex_prefix_ignored, r.prefix);
   STO_POST(s_stoi, int) VF_REACH(); }
 
-/*@GROUP name=stol props=C10,C02 kind=K unwind=28 tier=thorough timeout=1200 split=CC_BI:0:3 cost=9@*/
+/*@GROUP name=stol props=C10,C02 kind=K unwind=28 tier=thorough timeout=1200 split=CC_BI:0:3 cost=9 solver=kissat@*/
 void h_stol(void) { const int base = CC_BASE; VF_INPUT_BOOL(ll); RANGE_IN(CC_D64 + 3); STO_PRE(i64, 64, CC_D64 + 3, 0);
   VF_KNOWN(C10_parse_plus_sign_rejected, r.plus);
   VF_KNOWN(C10_parse_hex_prefix_ignored, r.prefix);
   if (ll) STO_POST(s_stoll, long long) else STO_POST(s_stol, long)
   VF_REACH(); }
 
-/*@GROUP name=stoul props=C10,C02 kind=K unwind=28 tier=thorough timeout=1200 split=CC_BI:0:3 cost=9@*/
+/*@GROUP name=stoul props=C10,C02 kind=K unwind=28 tier=thorough timeout=1200 split=CC_BI:0:3 cost=9 solver=kissat@*/
 void h_stoul(void) { const int base = CC_BASE; VF_INPUT_BOOL(ll); RANGE_IN(CC_D64 + 3); STO_PRE(u64, 64, CC_D64 + 3, 1);
   VF_KNOWN(C10_parse_plus_sign_rejected, r.plus);
   VF_KNOWN(C10_parse_hex_prefix_ignored, r.prefix);
@@ -487,7 +495,8 @@ void h_stoul(void) { const int base = CC_BASE; VF_INPUT_BOOL(ll); RANGE_IN(CC_D6
   if (ll) STO_POST(s_stoull, unsigned long long) else STO_POST(s_stoul, unsigned long)
   VF_REACH(); }
 
-/*@GROUP name=x_fc16 props=C10,C02 kind=K unwind=22 tier=thorough timeout=600 cost=3 split=CC_B:7:10@*/
-void h_x_fc16(void) { const int base = CC_B; RANGE_IN(CC_D16 + 3); FROM_CHARS_PRE(i16, 16, CC_D16 + 3);
-  VF_KNOWN(C10_from_chars_out_of_range_ptr, r.cls == 2);
-  FROM_CHARS_POST(i16); }
+/*@GROUP name=x_strtol props=C10,C02 kind=K unwind=29 tier=thorough timeout=1200 split=CC_BI:1:1 solver=kissat@*/
+void h_x_strtol(void) { const int base = CC_BASE; CSTR_IN(CC_D64 + 3); STRTO_PRE(i64, CC_D64 + 3, 0);
+  __CPROVER_assume(!r.plus && !r.prefix && r.cls != 2);
+  STRTO_POST(c_strtol, long);
+  VF_REACH(); }
